@@ -144,7 +144,7 @@ Definition valid_package_strcase (P : decl_package) : Prop :=
   /\ Forall (fun d => is_query_request (df_req d) = true -> exists root, list_root (df_resp d) = Ok root) (all_methods P)
   /\ all_refs_link (im_schemas (compile_image to_snake P)) = true
   /\ wf_env (im_schemas (compile_image to_snake P))
-  /\ flat_free (im_schemas (compile_image to_snake P)).
+  /\ client_env (im_schemas (compile_image to_snake P)) <> None.
 
 Lemma valid_package_strcase_valid P : valid_package_strcase P -> valid_package to_snake P.
 Proof.
@@ -162,9 +162,9 @@ Theorem chain_full_strcase : forall P, valid_package_strcase P ->
     cr_source r = Ok (declared_api P)
     /\ cr_client r = Ok (declared_clients to_snake P, ks)
     /\ (forall x, In x ks <->
-          present (image_env to_snake P) x /\
-          exists k, In k (flat_map method_roots (declared_clients to_snake P)) /\ present (image_env to_snake P) k
-                    /\ reach (image_env to_snake P) k x)
+          present (cenv (image_env to_snake P)) x /\
+          exists k, In k (flat_map method_roots (declared_clients to_snake P)) /\ present (cenv (image_env to_snake P)) k
+                    /\ reach (cenv (image_env to_snake P)) k x)
     /\ cr_swagger r = Ok tt.
 Proof. intros P Hv. apply chain_full. apply valid_package_strcase_valid. exact Hv. Qed.
 
@@ -196,7 +196,7 @@ Definition valid_package_strcase_d (P : decl_package) : Prop :=
   /\ Forall (fun d => is_query_request (df_req d) = true -> exists root, list_root (df_resp d) = Ok root) (all_methods P)
   /\ all_refs_link (im_schemas (compile_image to_snake P)) = true
   /\ wf_env (im_schemas (compile_image to_snake P))
-  /\ flat_free (im_schemas (compile_image to_snake P)).
+  /\ client_env (im_schemas (compile_image to_snake P)) <> None.
 
 Lemma valid_package_strcase_d_valid P : valid_package_strcase_d P -> valid_package to_snake P.
 Proof.
@@ -214,8 +214,8 @@ Theorem chain_full_strcase_d : forall P, valid_package_strcase_d P ->
     cr_source r = Ok (declared_api P)
     /\ cr_client r = Ok (declared_clients to_snake P, ks)
     /\ (forall x, In x ks <->
-          present (image_env to_snake P) x /\
-          exists k, In k (flat_map method_roots (declared_clients to_snake P)) /\ present (image_env to_snake P) k
-                    /\ reach (image_env to_snake P) k x)
+          present (cenv (image_env to_snake P)) x /\
+          exists k, In k (flat_map method_roots (declared_clients to_snake P)) /\ present (cenv (image_env to_snake P)) k
+                    /\ reach (cenv (image_env to_snake P)) k x)
     /\ cr_swagger r = Ok tt.
 Proof. intros P Hv. apply chain_full. apply valid_package_strcase_d_valid. exact Hv. Qed.
